@@ -296,6 +296,10 @@ func Build(s Spec) *Message {
 		if s.AbsForm {
 			m.Target = m.URL
 		}
+		if s.Path == "*" {
+			// asterisk form: the origin receives '*'
+			m.Target, m.URL = "*", "http://"+s.Host+"/*"
+		}
 		if s.Method == "CONNECT" {
 			// authority form; proxy.go gives the URL the scheme http
 			m.Target, m.URL = s.Host, "http://"+s.Host
@@ -305,6 +309,9 @@ func Build(s Spec) *Message {
 	}
 	for _, h := range s.Headers {
 		m.add(&buf, h.Name, h.Value)
+	}
+	if s.ConnClose {
+		m.add(&buf, "Connection", "close")
 	}
 	ct := s.ContentType
 	if s.Body.Kind == "multipart" || (s.Body.Kind == "badform" && strings.HasPrefix(s.Body.Bad, "multipart") && s.Body.Bad != "multipart-noboundary") {
